@@ -46,15 +46,24 @@ Definition observe (fl : flags) (w : world) (tr : nat -> list sop) : list pobs :
 Definition set_state_w (w : world) (x : nat * (nat * nat)) : world :=
   wset w (fst x) (mkW (set_state1 (w_st (w (fst x))) (snd x)) (w_cfg (w (fst x)))).
 
+(* the same world, tabulated on the pool (evaluation only: worlds are chains of closures) *)
+Fixpoint lookup_w (id : nat) (l : list (nat * went)) : option went :=
+  match l with [] => None | (i, x) :: r => if i =? id then Some x else lookup_w id r end.
+Definition freeze (w : world) : world :=
+  let l := map (fun id => (id, w id)) pl_pool in
+  fun id => match lookup_w id l with Some x => x | None => w id end.
+
 Definition run_round (fl : flags) (w : world) (r : round) : world * robs :=
+  let w := freeze w in
   let dir := r_dir r in
   let '(w1, err) := init fl w dir in
+  let w1 := freeze w1 in
   let obs := observe fl w1 (init_trace fl w dir) in
   let dir2 := clear_faults dir in
   let '(w2, rerr, rops) :=
     if err then (w1, false, 0)
     else let '(w2, e2) := init fl w1 dir2 in
-         (w2, e2, length (flat_map (init_trace fl w1 dir2) pl_pool)) in
+         (freeze w2, e2, length (flat_map (init_trace fl w1 dir2) pl_pool)) in
   (fold_left set_state_w (r_setstates r) w2,
    mkRObs (map (fun id => states_of (w_st (w id))) pl_pool) err obs rerr rops).
 
@@ -97,10 +106,14 @@ Definition mon_pl (dir : list dentry) (err : bool) (id : nat) (sb : list (nat * 
            else
              let cfg := de_cfg e in
              (* converged to the config of the directory *)
-             let conv := valid cfg && negb (de_bad e)
+             (* (a config the services should refuse - not [valid] - may still be accepted, e.g. an
+                existing processor updated to an unknown plugin: then it is what is stored) *)
+             let conv := negb (de_bad e)
                          && expres_eqb (po_export a) (EOk cfg) && po_cfg a
-                         && forallb (fun c => mem c (conn_ids (pl_conns cfg))) (fst (po_inst a))
-                         && forallb (fun k => memk k (cfg_proc_keys cfg)) (snd (po_inst a)) in
+                         && (if valid cfg
+                             then forallb (fun c => mem c (conn_ids (pl_conns cfg))) (fst (po_inst a))
+                                  && forallb (fun k => memk k (cfg_proc_keys cfg)) (snd (po_inst a))
+                             else true) in
              (* or: the import failed, is reported, and the previous pipeline is fully retained *)
              let kept := err && expres_eqb (po_export a) (po_export p) && Bool.eqb (po_cfg a) (po_cfg p)
                          && forallb (fun c => mem c (fst (po_inst p))) (fst (po_inst a))
